@@ -8,8 +8,13 @@ integration primitive (np.trapezoid / np.trapz) -- independent of local names an
 direction of increasing x and the specification's cuts L = #{x < lower}, R = #{x <= upper}, in the unclamped case the nodes are
 lower, X[L..R), upper (soundness and completeness of the window), the values are Y[L], Y[L..R), Y[R-1], the nodes ascend; the
 result is |trapz| >= 0.
+"At most upper-lower" (unclamped case): lemma L9 by induction over the node index -- with np.trapezoid's definitional contract
+(ghost partial sums S(0) = 0, S(k+1) = S(k) + (x[k+1]-x[k])(y[k]+y[k+1])/2, result S(n-1); assumed) the invariant
+0 <= S(k) <= x[k]-x[0] has base and step as obligations of every run, resting on two node facts proved from the executed body
+(every node value lies in [0,1], consecutive nodes ascend); at the last node, with the proved end nodes lower / upper, the result
+is <= upper-lower.
 Bounded (exhaustive weak orderings): equality with the Mann-Whitney statistic (ties 1/2, easy samples beyond), exact step area,
-additivity over adjacent intervals, <= upper-lower, the three complement identities.
+additivity over adjacent intervals, <= upper-lower in the clamped cases, the three complement identities.
 """
 import itertools
 from fractions import Fraction
@@ -75,8 +80,14 @@ def build_one(sc, ec, x_axis, y_axis):
 
     def trapz_contract(ex_, path_, y, x, *a, **k):
         # the integration primitive: records the nodes it is handed (np.trapezoid and the deprecated np.trapz)
+        # Definitional contract of the composite trapezoid rule (assumed, numpy's documented formula): the result is S(n-1) for the
+        # ghost partial sums  S(0) = 0,  S(k+1) = S(k) + (x[k+1]-x[k]) * (y[k]+y[k+1]) / 2.  The recursion is kept in `state` and
+        # only handed to the obligations of lemma L9 below; for every other obligation the result stays an opaque real.
+        from z3 import Function
+        S = Function(f"trapz_partial!{next(ex_.fresh)}", IntSort(), RealSort())
         state.setdefault("trapz", []).append((y, x, list(path_.pc)))
-        return P.PRIMS["np.trapezoid"](ex_, path_, y, x)
+        state.setdefault("trapz_sum", []).append(S)
+        return S(toI(x.axes[0].size) - 1)
     ex = new_exec(contracts={("Scores", r): rate_contract(r) for r in RATES}, extra_prims={"np.trapezoid": trapz_contract, "np.trapz": trapz_contract})
     path = Path()
     me = mk_scores(ex, path, sc, ec, min_pos=1, min_neg=1)
@@ -160,6 +171,26 @@ def window_obligations(ex, live, tag, lower, upper, state, x_axis, y_axis):
         ob("cut-values-are-the-curve-values-at-the-first-and-last-inner-node", Implies(And(unclamped, R - L >= 1), And(toR(yi.elem(0)) == Ys(L), toR(yi.elem(ni - 1)) == Ys(R - 1))))
         i, j = ex.new_int("i"), ex.new_int("j")
         ob("integration-nodes-ascending", Implies(And(unclamped, 0 <= i, i <= j, j < ni), toR(xi.elem(i)) <= toR(xi.elem(j))))
+        # ---- lemma L9: 0 <= S(k) <= x[k] - x[0] along ascending nodes with values in [0,1], by induction over the node index;
+        # hence  |trapz| <= upper - lower  ("at most upper-lower") in the unclamped case.  Base, step and the two node facts the step
+        # rests on are obligations of every run; the step itself is a small quantifier-free non-linear query.
+        S = state["trapz_sum"][pi]
+        xk, xk1, yk, yk1, x0 = toR(xi.elem(k)), toR(xi.elem(k + 1)), toR(yi.elem(k)), toR(yi.elem(k + 1)), toR(xi.elem(0))
+        rng = And(unclamped, 0 <= k, k + 1 < ni)
+        ob("L9/node-values-lie-in-[0,1]", Implies(And(unclamped, 0 <= k, k < ni), And(0 <= yk, yk <= 1)))
+        ob("L9/consecutive-nodes-ascend", Implies(rng, xk <= xk1))
+        sdef0, sdefk = S(0) == 0, S(k + 1) == S(k) + (xk1 - xk) * (yk + yk1) / 2
+
+        def lob(name, goal, hyps):
+            obs.append(Oblig(f"C07/auc/window/L9/{name}{ptag}{tag}", hyps, goal, "lemma", ("C07",), {"key": f"C07/auc/window/L9/{name}"}))
+        lob("base: S(0) = 0 lies in [0, x[0]-x[0]]", And(0 <= S(0), S(0) <= x0 - x0), [sdef0])
+        lob("step: 0 <= S(k+1) <= x[k+1]-x[0]", And(0 <= S(k + 1), S(k + 1) <= xk1 - x0),
+            [sdefk, 0 <= S(k), S(k) <= xk - x0, xk <= xk1, 0 <= yk, yk <= 1, 0 <= yk1, yk1 <= 1])
+        # conclusion of the induction at the last node + the proved end-node fact => the clause of the statement
+        last = ni - 1
+        res = toR(live[pi].value)
+        lob("result-is-at-most-upper-minus-lower", Implies(unclamped, And(0 <= res, res <= upper - lower)),
+            list(live[pi].path.pc) + [Implies(unclamped, And(0 <= S(last), S(last) <= toR(xi.elem(last)) - x0)), Implies(unclamped, And(ni >= 2, x0 == lower, toR(xi.elem(last)) == upper))])
     return obs
 
 
